@@ -100,3 +100,27 @@ def install_clocks():
     R.time = FakeTime
     ST.time = FakeTime
     SH.time = FakeTime
+
+
+class FakeGC:
+    """Replaces runner.gc where garbage collection is not the subject:
+    gc.collect() on CrossHair's heap costs ~30 ms and the runner calls it
+    two or three times per layer run."""
+    garbage = []
+    DEBUG_SAVEALL = 0
+
+    @staticmethod
+    def collect(*a):
+        return 0
+
+    @staticmethod
+    def get_debug():
+        return 0
+
+    @staticmethod
+    def set_debug(f):
+        pass
+
+    @staticmethod
+    def get_referents(*a):
+        return []
